@@ -364,15 +364,17 @@ func (x *Exec) symbolic(name string, T types.Type, mk func(n string, s Sort) *Te
 	switch x.kindOf(T) {
 	case KScalar:
 		t := mk(name, x.scalarSort(T))
-		x.rangeFact(t, T)
+		if !x.noFacts {
+			x.rangeFact(t, T)
+		}
 		return Scalar(t, T)
 	case KSlice:
 		es := x.elemSort(T)
 		v := Value{Kind: KSlice, T: T, Arr: mk(name+".arr", ArraySort(SInt, es)), Len: mk(name+".len", SInt), IsNil: mk(name+".isnil", SBool)}
-		if a, ok := types.Unalias(T).Underlying().(*types.Array); ok {
+		if a, ok := types.Unalias(T).Underlying().(*types.Array); ok && !x.noFacts {
 			v.Len = IntLit(a.Len())
 			v.IsNil = False
-		} else {
+		} else if !x.noFacts {
 			x.addFact(v.Len, And(Le(IntLit(0), v.Len), Le(v.Len, IntStr("4611686018427387904"))))
 			x.addFact(v.IsNil, Implies(v.IsNil, Eq(v.Len, IntLit(0))))
 		}
@@ -386,8 +388,10 @@ func (x *Exec) symbolic(name string, T types.Type, mk func(n string, s Sort) *Te
 		es := x.elemSort(T)
 		v := Value{Kind: KMap, T: T, Arr: mk(name+".arr", ArraySort(ks, es)), Has: mk(name+".has", ArraySort(ks, SBool)),
 			Size: mk(name+".size", SInt), IsNil: mk(name+".isnil", SBool)}
-		x.addFact(v.Size, Le(IntLit(0), v.Size))
-		x.addFact(v.IsNil, Implies(v.IsNil, Eq(v.Size, IntLit(0))))
+		if !x.noFacts {
+			x.addFact(v.Size, Le(IntLit(0), v.Size))
+			x.addFact(v.IsNil, Implies(v.IsNil, Eq(v.Size, IntLit(0))))
+		}
 		return v
 	case KStruct:
 		_, s, _ := x.isRepoStruct(T)
